@@ -1,5 +1,5 @@
 // govc:pkg .
-// govc:bound HAVING: 5 aggregates x 2 columns x {>,<,>=} x 3 thresholds singly, and 40 AND/OR pairs of unselected aggregates (about 130 queries; every third one beside a compound SELECT item); SELECT items: 12 item shapes (incl. parenthesised literal operands) plus 9 items using one aggregate twice over swapped operands and 4 items with a two-argument scalar call inside an aggregate's argument x aggregates {sum,avg,min,max,count} x columns {v,w} x operators {+,-,*,/} x literals {2,0.5,32} on one fixed batch of 3 groups x 3 rows (about 700 queries)
+// govc:bound HAVING: 5 aggregates x 2 columns x {>,<,>=} x 3 thresholds singly, and 40 AND/OR pairs of unselected aggregates (about 130 queries; every third one beside a compound SELECT item); SELECT items: 12 item shapes (incl. parenthesised literal operands) plus 9 items using one aggregate twice over swapped operands and 4 items with a two-argument scalar call inside an aggregate's argument, 2 parameterised plain aggregates; every delivered row is also checked to hold the selected columns only x aggregates {sum,avg,min,max,count} x columns {v,w} x operators {+,-,*,/} x literals {2,0.5,32} on one fixed batch of 3 groups x 3 rows (about 700 queries)
 // govc:also C11
 // Bounded stand-in (NOT a proof): SELECT items that combine aggregate calls, literals and arithmetic, executed through
 // the real engine (Execute / Emit / sync sink) against a relational oracle computed from the same rows. The classification
@@ -149,6 +149,9 @@ func govcItems() []govcItem {
 	out = append(out, govcItem{"SUM(POWER(w, 2) + v) + 1", govcBin("+", rowExpr("SUM", func(v, w float64) float64 { return pow2(w) + v }), govcLit(1))})
 	out = append(out, govcItem{"MAX(v * POWER(w, 2)) - MIN(v)", govcBin("-", rowExpr("MAX", func(v, w float64) float64 { return v * pow2(w) }), govcAgg("MIN", "v", 1))})
 	out = append(out, govcItem{"SUM(2 * POWER(w, 2)) / COUNT(v)", govcBin("/", rowExpr("SUM", func(v, w float64) float64 { return 2 * pow2(w) }), govcAgg("COUNT", "v", 1))})
+	// plain aggregates that take a parameter (they get a helper column of their own, which must not be delivered)
+	out = append(out, govcItem{"NTH_VALUE(v, 2)", func(rows []map[string]any) float64 { return rows[1]["v"].(float64) }})
+	out = append(out, govcItem{"NTH_VALUE(w, 1) + 0", func(rows []map[string]any) float64 { return rows[0]["w"].(float64) }})
 	return out
 }
 
@@ -166,6 +169,12 @@ func govcRunQuery(sql string) (map[string]float64, error) {
 		defer mu.Unlock()
 		for _, r := range rs {
 			g, _ := r["g"].(string)
+			// only the selected columns are delivered: no helper column of the aggregation machinery reaches the sink
+			for k := range r {
+				if k != "g" && k != "f" && k != "window_id" && k != "window_start" && k != "window_end" {
+					bad = fmt.Sprintf("group %s: unselected column %q delivered (%v)", g, k, r)
+				}
+			}
 			switch x := r["f"].(type) {
 			case float64:
 				got[g] = x
